@@ -135,7 +135,7 @@ theorem length_subMergers (e : Ex) (subs : List Ex) : (e.subMergers subs).length
   | ifE c w ih => simp only [Ex.subMergers]; split <;> simp [ih]
   | bounded w lo hi ih => simp only [Ex.subMergers]; split <;> simp [ih]
   | shift w off ih => simp only [Ex.subMergers]; split <;> simp [ih]
-  | unary f w ih => simpa [Ex.subMergers] using ih
+  | unary f w ih => simp only [Ex.subMergers]; split <;> simp [ih]
 
 /-- the sub-merger `core.Group` uses for column `j`: that of `Expr.SubMergers` for a kept column,
     none for a dropped one -/
